@@ -6,6 +6,7 @@ import (
 	"fmt"
 	"strconv"
 	"strings"
+	"sync"
 
 	"github.com/ontio/ontology-crypto/keypair"
 	"github.com/polynetwork/poly/common"
@@ -21,6 +22,7 @@ import (
 //	txprop <B> <altsigs> <trail> <keys> property of a valid encoding B: re-encodes to B, hash = dsha256(unsigned bytes),
 //	                                    same hash with another signature section, B++trail decodes with Raw = B,
 //	                                    every examined truncation is refused: "ok hash=<h>"
+//	conc <g> <rounds> tx:<B>|blk:<B> ... <keys>   the items decoded from g goroutines at once: every identity = dsha256(unsigned bytes): "ok"
 //	txbig <codelen> <fill> <nonce>      transaction with a code of codelen bytes: "len=<n> ok hash=<h>|err" (MAX_TX_SIZE)
 //	hdr <B> <keys>                      Header.Deserialization (+ the streaming Deserialize must agree): "ok <V> hash=<h> rest=<n>"
 //	hdrprop <B> <alttail> <keys>        property of a valid header encoding (hash ignores bookkeepers / sigData)
@@ -342,6 +344,130 @@ func refRootU(hs []common.Uint256) common.Uint256 {
 	return refRootU(next)
 }
 
+// concOp: conc <goroutines> <rounds> tx:<hex>|blk:<hex> ... <keys>. The same transactions and blocks are decoded from several
+// goroutines at once, several rounds; every transaction identity must equal the double SHA-256 of its unsigned bytes computed
+// here, sequentially, with crypto/sha256 (decoders share no state: a node decodes p2p messages, RPC input and blocks
+// concurrently). A panic in a decoding goroutine is a violation as well. Outcome "ok".
+func (f *ledgerFam) concOp(r *hx.Run, op []string) string {
+	var g, rounds int
+	fmt.Sscan(op[1], &g)
+	fmt.Sscan(op[2], &rounds)
+	if g < 1 || rounds < 1 || len(op) < 5 {
+		return "bad-op"
+	}
+	type item struct {
+		blk  bool
+		raw  []byte
+		want [][]byte // expected transaction hashes (one for a transaction, one per transaction for a block)
+	}
+	var items []item
+	for _, t := range op[3 : len(op)-1] {
+		var it item
+		switch {
+		case strings.HasPrefix(t, "tx:"):
+			it.raw = hx.UnHex(t[3:])
+			ul, ok := unsignedLen(it.raw)
+			if !ok {
+				return "bad-op"
+			}
+			it.want = [][]byte{dsha256(it.raw[:ul])}
+		case strings.HasPrefix(t, "blk:"):
+			it.blk = true
+			it.raw = hx.UnHex(t[4:])
+			b := &types.Block{}
+			if err := b.Deserialization(common.NewZeroCopySource(append([]byte{}, it.raw...))); err != nil {
+				return "bad-op"
+			}
+			for _, tx := range b.Transactions {
+				ul, ok := unsignedLen(tx.Raw)
+				if !ok {
+					return "bad-op"
+				}
+				it.want = append(it.want, dsha256(tx.Raw[:ul]))
+			}
+		default:
+			return "bad-op"
+		}
+		items = append(items, it)
+	}
+	type failure struct{ key, desc string }
+	fails := make(chan failure, g*4)
+	var wg sync.WaitGroup
+	start := make(chan struct{})
+	for w := 0; w < g; w++ {
+		wg.Add(1)
+		go func(w int) {
+			defer wg.Done()
+			defer func() {
+				if e := recover(); e != nil {
+					select {
+					case fails <- failure{"C02:panic-under-concurrent-decode", fmt.Sprintf("goroutine %d of %d panics while decoding: %v", w, g, e)}:
+					default:
+					}
+				}
+			}()
+			<-start
+			for round := 0; round < rounds; round++ {
+				for k := range items {
+					it := &items[(k+w)%len(items)]
+					var got [][]byte
+					if it.blk {
+						b := &types.Block{}
+						if err := b.Deserialization(common.NewZeroCopySource(append([]byte{}, it.raw...))); err != nil {
+							select {
+							case fails <- failure{"C02:valid-block-rejected-under-concurrent-decode", fmt.Sprintf("goroutine %d: block rejected: %v", w, err)}:
+							default:
+							}
+							continue
+						}
+						for _, tx := range b.Transactions {
+							h := tx.Hash()
+							got = append(got, append([]byte{}, h[:]...))
+						}
+					} else {
+						tx, err := decodeTx(it.raw)
+						if err != nil {
+							select {
+							case fails <- failure{"C02:valid-tx-rejected-under-concurrent-decode", fmt.Sprintf("goroutine %d: transaction rejected: %v", w, err)}:
+							default:
+							}
+							continue
+						}
+						h := tx.Hash()
+						got = [][]byte{append([]byte{}, h[:]...)}
+					}
+					for j := range it.want {
+						if j >= len(got) || !bytes.Equal(got[j], it.want[j]) {
+							var gj []byte
+							if j < len(got) {
+								gj = got[j]
+							}
+							select {
+							case fails <- failure{"C02:tx-hash-differs-under-concurrent-decode", fmt.Sprintf("goroutine %d of %d, round %d: transaction %d of item %d has hash %x, double SHA-256 of its unsigned bytes is %x (one decode at a time gives the latter)", w, g, round, j, (k+w)%len(items), gj, it.want[j])}:
+							default:
+							}
+							return
+						}
+					}
+				}
+			}
+		}(w)
+	}
+	close(start)
+	wg.Wait()
+	close(fails)
+	res := "ok"
+	seen := map[string]bool{}
+	for fl := range fails {
+		if !seen[fl.key] {
+			seen[fl.key] = true
+			r.Viol(fl.key, fl.desc)
+		}
+		res = "FAIL:concurrent"
+	}
+	return res
+}
+
 func bigTx(n int, fill byte, nonce uint32) []byte {
 	tx := &types.Transaction{TxType: types.Invoke, Nonce: nonce, Payload: &payload.InvokeCode{Code: bytes.Repeat([]byte{fill}, n)}}
 	sink := common.NewZeroCopySink(nil)
@@ -365,6 +491,8 @@ func (f *ledgerFam) Exec(r *hx.Run, op []string) string {
 		return out
 	case "txprop":
 		return f.txProp(r, hx.UnHex(op[1]), hx.UnHex(op[2]), hx.UnHex(op[3]))
+	case "conc":
+		return f.concOp(r, op)
 	case "txbig":
 		n, _ := strconv.Atoi(op[1])
 		nonce, _ := strconv.Atoi(op[3])
@@ -665,6 +793,33 @@ func (f *ledgerFam) Gen(r *hx.Run) {
 		m := append(append(append([]byte{}, raw[:at]...), append([]byte{byte(len(wire))}, wire...)...), raw[at+1+len(canon):]...)
 		out := r.Do(fmt.Sprintf("tx %s %s", hx.Hex(m), keyOracle(m)))
 		r.Nontrivial("tx-noncanon-key/" + outClass(out))
+	}
+	// concurrent decoding: decoders must not share state
+	for i := 0; i < r.Pick(5, 60); i++ {
+		newCase("conc")
+		var toks []string
+		var all [][]byte
+		for j := 0; j < 8; j++ {
+			tx := f.genTx(r, 3)
+			tx.Payload = &payload.InvokeCode{Code: r.Rng.Bytes([]int{10, 300, 2000, 9000}[r.Rng.Intn(4)])}
+			raw := serTx(tx)
+			all = append(all, raw)
+			toks = append(toks, "tx:"+hx.Hex(raw))
+		}
+		for j := 0; j < 2; j++ {
+			blk := &types.Block{Header: f.genHeader(r)}
+			for k := 0; k < 3; k++ {
+				if t, err := decodeTx(serTx(f.genTx(r, 2))); err == nil {
+					blk.Transactions = append(blk.Transactions, t)
+				}
+			}
+			blk.RebuildMerkleRoot()
+			raw := blk.ToArray()
+			all = append(all, raw)
+			toks = append(toks, "blk:"+hx.Hex(raw))
+		}
+		r.Do(fmt.Sprintf("conc %d %d %s %s", []int{4, 6, 8}[r.Rng.Intn(3)], r.Pick(25, 60), strings.Join(toks, " "), keyOracle(all...)))
+		r.Nontrivial(fmt.Sprintf("conc/%d", i))
 	}
 	// 3. sizes around MAX_TX_SIZE (the empty-signature transaction has 54 bytes + code + its var-uint length)
 	for _, total := range []int{types.MAX_TX_SIZE - 1, types.MAX_TX_SIZE, types.MAX_TX_SIZE + 1} {
